@@ -126,7 +126,10 @@ def specVerifyMsg (mode : Spec.Tsig.Mode) (alg : Algorithm) (key : Octets) (now 
     else match Spec.Tsig.parseRdata l.rdata with
       | none => "unreadable"
       | some f =>
-        if l.cls ≠ 255 ∨ l.ttl ≠ 0 then "rr:FormErr"
+        -- C11 does not speak about the TTL field of the TSIG RR: values with the top bit set reach
+        -- `ReadTsigRr::try_from` as 0 (`Ttl::from`); the server rejects them itself (C08)
+        if l.ttl > 2147483647 then "-"
+        else if l.cls ≠ 255 ∨ l.ttl ≠ 0 then "rr:FormErr"
         else if Spec.Tsig.outputSizeOf f.algName ≠ some (specAlg alg).2 then "alg-mismatch"
         else specVerify mode alg key now (msg.extract 0 l.start).toList l.owner l.rdata pmac "unreadable"
 
